@@ -51,6 +51,7 @@ class GeminiClient:
         tofu_db_path: Path | None = None,
         client_cert: Path | str | None = None,
         client_key: Path | str | None = None,
+        decode_text: bool = True,
     ):
         """Initialize the Gemini client.
 
@@ -69,11 +70,15 @@ class GeminiClient:
                 authentication with servers that require client certificates.
             client_key: Path to client private key file (PEM format). Required
                 if client_cert is provided.
+            decode_text: Whether to decode text/* response bodies to str using
+                the declared charset (default). If False, bodies are returned
+                as the raw bytes received.
         """
         self.timeout = timeout
         self.max_redirects = max_redirects
         self.verify_ssl = verify_ssl
         self.trust_on_first_use = trust_on_first_use
+        self.decode_text = decode_text
 
         # Validate client cert/key pair
         if client_cert and not client_key:
@@ -183,7 +188,10 @@ class GeminiClient:
         # Per spec: "client SHOULD add trailing '/' for empty paths"
         # The request is only sent once the certificate has been verified (below)
         protocol = GeminiClientProtocol(
-            parsed.normalized, response_future, send_on_connect=False
+            parsed.normalized,
+            response_future,
+            send_on_connect=False,
+            decode_text=self.decode_text,
         )
 
         # Create connection using Protocol/Transport pattern
@@ -393,7 +401,11 @@ class GeminiClient:
         # Create protocol instance
         # The request is only sent once the certificate has been verified (below)
         protocol = TitanClientProtocol(
-            titan_url, content_bytes, response_future, send_on_connect=False
+            titan_url,
+            content_bytes,
+            response_future,
+            send_on_connect=False,
+            decode_text=self.decode_text,
         )
 
         # Create connection using Protocol/Transport pattern
